@@ -335,29 +335,60 @@ func checkEthShape(e *Engine, r *Report, ds []*Decorator) {
 		return nil
 	}
 
-	// guardedNext decides, for decorator d and guard set gs, that every next() on the Ethereum lane outside re-check passes a guard.
+	// guardedNext decides, for decorator d and guard set gs (guards of the decorator or of its single-site private helpers), that
+	// every next() on the Ethereum lane outside re-check passes a guard. Decided on the decorator's supergraph.
+	regs := map[*Decorator]*Region{}
+	sgs := map[*Decorator]*SG{}
+	regOf := func(d *Decorator) (*Region, *SG) {
+		if regs[d] == nil {
+			regs[d] = e.privateRegion(d.Fn)
+			sgs[d] = regs[d].Supergraph()
+		}
+		return regs[d], sgs[d]
+	}
 	guardedNext := func(d *Decorator, gs []Guard) (bool, int) {
 		fn := d.Fn
+		_, sg := regOf(d)
 		_, cosmos := laneGuards(fn)
-		del := surviveEdges(gs)
-		for k := range surviveEdges(cosmos) {
-			del[k] = true
-		}
-		for _, g := range boolCallGuards(fn, true, func(c *ssa.Call) bool {
+		all := append(append([]Guard{}, gs...), cosmos...)
+		all = append(all, boolCallGuards(fn, true, func(c *ssa.Call) bool {
 			return isCallTo(c, CallSpec{pkgSdkTypes, "Context", "IsReCheckTx"})
-		}) {
-			b := g.If.Block()
-			del[edge{b.Index, b.Succs[g.Survive].Index}] = true
-		}
-		reach := reachable(fn, fn.Blocks[0], del)
+		})...)
 		n := 0
+		if len(gs) == 0 {
+			return false, 0
+		}
 		for _, c := range callsIn(fn, false, func(c ssa.CallInstruction) bool { return isNextCall(fn, c) }) {
 			n++
-			if reach[c.Block()] {
+			if !sg.MustPass(c, all) {
 				return false, n
 			}
 		}
 		return n > 0, n
+	}
+	// shapeGuardsOf: error-exit guards on the field in the decorator and its helpers; a helper's guard counts only if the
+	// helper's error is propagated by the decorator
+	shapeGuardsOf := func(d *Decorator, pred func(i *ssa.If, sl *Slice) bool, name string) []Guard {
+		reg, _ := regOf(d)
+		var gs []Guard
+		for _, f := range reg.Fns {
+			if f != d.Fn && !reg.ErrorPropagated(reg.site[f]) {
+				continue
+			}
+			for _, i := range ifs(f) {
+				sl := reg.BackSlice(i.Cond, SliceOpts{ThroughCallArgs: alwaysThrough})
+				if !pred(i, sl) {
+					continue
+				}
+				g, ok := errorExitGuard(f, i, func(c ssa.CallInstruction) bool { return isNextCall(d.Fn, c) })
+				if !ok {
+					continue
+				}
+				g.Desc = name
+				gs = append(gs, g)
+			}
+		}
+		return gs
 	}
 
 	for _, q := range reqs {
@@ -365,28 +396,20 @@ func checkEthShape(e *Engine, r *Report, ds []*Decorator) {
 		found := false
 		var where string
 		for _, d := range early {
-			fn := d.Fn
-			var gs []Guard
-			for _, i := range ifs(fn) {
-				sl := backSlice(i.Cond, SliceOpts{ThroughCallArgs: alwaysThrough})
+			gs := shapeGuardsOf(d, func(i *ssa.If, sl *Slice) bool {
 				if !sl.Has(func(v ssa.Value) bool { return fieldVar(v) == fv }) {
-					continue
+					return false
 				}
 				if q.needCall != nil && !sl.HasCall(*q.needCall) {
-					continue
+					return false
 				}
 				if q.eqOnly {
 					if b, isB := i.Cond.(*ssa.BinOp); isB && b.Op != token.EQL && b.Op != token.NEQ {
-						continue
+						return false
 					}
 				}
-				g, ok := errorExitGuard(fn, i, func(c ssa.CallInstruction) bool { return isNextCall(fn, c) })
-				if !ok {
-					continue
-				}
-				g.Desc = q.name
-				gs = append(gs, g)
-			}
+				return true
+			}, q.name)
 			if len(gs) == 0 {
 				continue
 			}
@@ -935,17 +958,84 @@ func checkLanePredicates(e *Engine, r *Report) {
 			}
 		}
 	}
-	r.Check(okAssert, "HasSingleEthereumMessage › non-Ethereum message ⇒ false", e.Pos(hs.Pos()), "failed *MsgEthereumTx assertion returns false", "a transaction mixing Ethereum and other messages can be classified as Ethereum lane")
-	r.Check(okSecond, "HasSingleEthereumMessage › second message ⇒ false", e.Pos(hs.Pos()), "already-found flag returns false", "a transaction with several Ethereum messages can be classified as Ethereum lane")
-	inLoop := false
-	for _, l := range loopsOf(hs) {
-		for _, ret := range returnsFromInsideLoop(hs, l) {
-			if b, isK := constBool(ret.Results[0]); !(isK && !b) {
-				inLoop = true // a return from the middle of an iteration that may be true
+	// alternative form without a loop: `if len(msgs) != 1 { return false }; _, ok := msgs[0].(*MsgEthereumTx); return ok`
+	direct := func() bool {
+		var gLen []Guard
+		for _, i := range ifs(hs) {
+			b, ok := i.Cond.(*ssa.BinOp)
+			if !ok || (b.Op != token.EQL && b.Op != token.NEQ) {
+				continue
+			}
+			k, isK := constInt(b.Y)
+			lc, _ := callOf(b.X)
+			if !isK || k != 1 || lc == nil {
+				continue
+			}
+			if bi, isBi := lc.Call.Value.(*ssa.Builtin); !isBi || bi.Name() != "len" || !sliceFrom(lc.Call.Args[0]).Has(func(v ssa.Value) bool { c, ok := v.(*ssa.Call); return ok && isMethodNamed(c, "GetMsgs") }) {
+				continue
+			}
+			sv := 0
+			if b.Op == token.NEQ {
+				sv = 1
+			}
+			gLen = append(gLen, Guard{If: i, Survive: sv})
+		}
+		if len(gLen) == 0 || len(loopsOf(hs)) != 0 {
+			return false
+		}
+		n := 0
+		for _, ret := range returnsOf(hs) {
+			if b, isK := constBool(ret.Results[0]); isK && !b {
+				continue
+			}
+			ex, ok := ret.Results[0].(*ssa.Extract)
+			if !ok || ex.Index != 1 {
+				return false
+			}
+			ta, ok := ex.Tuple.(*ssa.TypeAssert)
+			if !ok || !ta.CommaOk || namedTypePath(ta.AssertedType) != pkgEvmTypes+".MsgEthereumTx" {
+				return false
+			}
+			// the asserted value is element 0 of the message list
+			elem := ta.X
+			if u, isU := elem.(*ssa.UnOp); isU && u.Op == token.MUL {
+				elem = u.X
+			}
+			ia, ok := elem.(*ssa.IndexAddr)
+			if !ok {
+				return false
+			}
+			if k, isK := constInt(ia.Index); !isK || k != 0 {
+				return false
+			}
+			if !sliceFrom(ia.X).Has(func(v ssa.Value) bool { c, ok := v.(*ssa.Call); return ok && isMethodNamed(c, "GetMsgs") }) {
+				return false
+			}
+			if !blockGuarded(hs, ret.Block(), gLen) {
+				return false
+			}
+			n++
+		}
+		return n > 0
+	}()
+	if direct {
+		r.OK("HasSingleEthereumMessage › non-Ethereum message ⇒ false", e.Pos(hs.Pos()), "result is the *MsgEthereumTx assertion of the only message")
+		r.OK("HasSingleEthereumMessage › second message ⇒ false", e.Pos(hs.Pos()), "len(msgs) != 1 returns false")
+		r.OK("HasSingleEthereumMessage › true only after all messages were inspected", e.Pos(hs.Pos()), "exactly one message, and it is inspected")
+	}
+	if !direct {
+		r.Check(okAssert, "HasSingleEthereumMessage › non-Ethereum message ⇒ false", e.Pos(hs.Pos()), "failed *MsgEthereumTx assertion returns false", "a transaction mixing Ethereum and other messages can be classified as Ethereum lane")
+		r.Check(okSecond, "HasSingleEthereumMessage › second message ⇒ false", e.Pos(hs.Pos()), "already-found flag returns false", "a transaction with several Ethereum messages can be classified as Ethereum lane")
+		inLoop := false
+		for _, l := range loopsOf(hs) {
+			for _, ret := range returnsFromInsideLoop(hs, l) {
+				if b, isK := constBool(ret.Results[0]); !(isK && !b) {
+					inLoop = true // a return from the middle of an iteration that may be true
+				}
 			}
 		}
+		r.Check(!inLoop && len(loopsOf(hs)) == 1, "HasSingleEthereumMessage › true only after all messages were inspected", e.Pos(hs.Pos()), "no true result from inside the loop", "the predicate can answer true before all messages were inspected")
 	}
-	r.Check(!inLoop && len(loopsOf(hs)) == 1, "HasSingleEthereumMessage › true only after all messages were inspected", e.Pos(hs.Pos()), "no true result from inside the loop", "the predicate can answer true before all messages were inspected")
 
 	ie := e.Fn(pkgAnteUtils, "IsEthereumTx")
 	gSingle := boolCallGuards(ie, true, func(c *ssa.Call) bool { return isCallTo(c, specHasSingleEth) })
